@@ -337,7 +337,21 @@ def gen_levels(rng, token, start_k, direction, n, offgrid=False):
     return out
 
 
-def gen_instr(rng, idx, token="ETH", now=360, crossed=False, max_levels=12):
+def rough_side(rng, levels, token):
+    """the same side the way a data file may hold it: levels in any order, a price level split over several rows (sizes int / float mixed).
+    Orders are matched by price (best first, one level per price), not by the position of a row."""
+    out = [list(l) for l in levels]
+    r = rng.random()
+    if out and r < 0.6:
+        for _ in range(rng.randint(1, 3)):
+            p = rng.choice(out)[0]
+            out.insert(rng.randint(0, len(out)), [p, gen_size(rng, token)])
+    if r > 0.3:
+        rng.shuffle(out)
+    return out
+
+
+def gen_instr(rng, idx, token="ETH", now=360, crossed=False, max_levels=12, rough=0.0):
     kind = rng.choice(("CALL", "PUT"))
     strike = rng.choice(range(1000, 3001, 50))
     underlying = round(rng.uniform(1200, 2600), 2)
@@ -352,16 +366,64 @@ def gen_instr(rng, idx, token="ETH", now=360, crossed=False, max_levels=12):
         asks = gen_levels(rng, token, max(1, mark_k - 8), +1, na, offgrid)
     r = rng.random()
     expiry = now + rng.choice((60, 600, 30000)) if r < 0.8 else now - rng.choice((0, 60, 1000))
-    return {
+    ins = {
         "name": f"{token}-X{idx}-{strike}-{'C' if kind == 'CALL' else 'P'}", "state": "open" if rng.random() < 0.96 else "closed",
         "kind": kind, "strike": strike, "expiry": expiry, "mark": mark, "underlying": underlying,
         "delta": round(rng.uniform(-1, 1), 5), "gamma": round(rng.uniform(0, 0.01), 5), "asks": asks, "bids": bids,
     }
+    if rough and rng.random() < rough:
+        ins["asks"], ins["bids"] = rough_side(rng, asks, token), rough_side(rng, bids, token)
+        ins["rough"] = True
+    return ins
 
 
-def gen_book(rng, token="ETH", now=360, crossed=False, n=None, max_levels=12):
+TIE_Q = 4096                # binary price grid of the cap-tie instruments: every price, mark x multiple and mark / multiple is exact
+TIE_MULTS = (1, 1.25, 1.5, 2, 4)
+
+
+def tie_mult_arg(rng, m):
+    """the multiple as an int / float / Decimal argument (float_param_formatter makes the same Decimal of all of them)"""
+    if m in (1, 2, 4) and rng.random() < 0.4:
+        return int(m)
+    return float(m) if rng.random() < 0.5 else Decimal(str(m))
+
+
+def gen_tie_instr(rng, idx, token="ETH", now=360, rough=0.0):
+    """an instrument with an ask priced EXACTLY at multiple x mark and a bid EXACTLY at mark / multiple (binary-exact marks such as
+    0.029296875 = 120/4096, multiples 1 / 1.25 / 1.5 / 2 / 4), with 0-3 strictly better levels in front of them and 0-2 worse behind:
+    whether a level exactly on the cap counts must not matter for the consistency of the outcome."""
+    a = 60 * rng.randint(1, 12)
+    mb, ms = rng.choice(TIE_MULTS), rng.choice(TIE_MULTS)
+    cap, floor = int(a * mb), int(a / ms)
+    assert cap == a * mb and floor * ms == a
+    size = lambda: rng.choice((rng.randint(1, 40), float(rng.randint(1, 40)), rng.randint(1, 400) / 10)) if token == "ETH" \
+        else rng.choice((rng.randint(1, 40), rng.randint(1, 400) / 10))  # noqa: E731
+    better_a = sorted(rng.sample(range(a, cap), min(rng.randint(0, 3), cap - a))) if cap > a else []
+    worse_a = sorted(rng.sample(range(cap + 1, cap + 40), rng.randint(0, 2)))
+    better_b = sorted(rng.sample(range(floor + 1, a + 1), min(rng.randint(0, 3), a - floor)), reverse=True) if a > floor else []
+    worse_b = sorted(rng.sample(range(max(1, floor - 40), floor), min(rng.randint(0, 2), max(0, floor - max(1, floor - 40)))), reverse=True)
+    asks = [[k / TIE_Q, size()] for k in better_a + [cap] + worse_a]
+    bids = [[k / TIE_Q, size()] for k in better_b + [floor] + worse_b]
+    kind = rng.choice(("CALL", "PUT"))
+    strike = rng.choice(range(1000, 3001, 50))
+    ins = {
+        "name": f"{token}-T{idx}-{strike}-{'C' if kind == 'CALL' else 'P'}", "state": "open", "kind": kind, "strike": strike,
+        "expiry": now + rng.choice((60, 600, 30000)), "mark": a / TIE_Q, "underlying": round(rng.uniform(1200, 2600), 2),
+        "delta": round(rng.uniform(-1, 1), 5), "gamma": round(rng.uniform(0, 0.01), 5), "asks": asks, "bids": bids,
+        "tie": {"buy": [mb, cap / TIE_Q, len(better_a)], "sell": [ms, floor / TIE_Q, len(better_b)]},
+    }
+    if rough and rng.random() < rough:
+        ins["asks"], ins["bids"] = rough_side(rng, asks, token), rough_side(rng, bids, token)
+        ins["rough"] = True
+    return ins
+
+
+def gen_book(rng, token="ETH", now=360, crossed=False, n=None, max_levels=12, rough=0.0, tie=0.0):
     n = n if n is not None else rng.choice((1, 2, 3, 4))
-    return [gen_instr(rng, i, token, now, crossed, max_levels) for i in range(n)]
+    book = [gen_instr(rng, i, token, now, crossed, max_levels, rough) for i in range(n)]
+    if tie and rng.random() < tie:
+        book[rng.randrange(n)] = gen_tie_instr(rng, n, token, now, rough)
+    return book
 
 
 def level_dec(x) -> Decimal:
@@ -398,17 +460,28 @@ def gen_amount(rng, levels, token):
     return Decimal(rng.randint(1, 60)), "int-decimal"
 
 
+def norm_levels(levels, side):
+    """best price first, one level per price (Decimal sizes as they print): what the generator aims its amounts and limit prices at"""
+    agg = {}
+    for p, sz in levels:
+        agg[p] = agg.get(p, Decimal(0)) + level_dec(sz)
+    return [[p, agg[p]] for p in sorted(agg, reverse=(side == "sell"))]
+
+
 def gen_trade(rng, instrs, token, side=None, positions=None):
     """a buy/sell op dict + tags"""
     side = side or rng.choice(("buy", "sell"))
     if not instrs or rng.random() < 0.04:
         return {"type": side, "name": "ETH-NOPE-1-C", "amount": 1}, "unknown-instrument"
     ins = rng.choice(instrs)
+    ties = [i for i in instrs if "tie" in i]
+    if ties and rng.random() < 0.5:
+        return gen_tie_trade(rng, rng.choice(ties), token, side, positions)
     if side == "sell" and positions and rng.random() < 0.7:
         held = [i for i in instrs if i["name"] in positions]
         if held:
             ins = rng.choice(held)
-    levels = ins["asks"] if side == "buy" else ins["bids"]
+    levels = norm_levels(ins["asks"] if side == "buy" else ins["bids"], side)
     amount, acls = gen_amount(rng, levels, token)
     if side == "sell" and positions and ins["name"] in positions and rng.random() < 0.55 and isinstance(amount, (int, Decimal)) \
             and amount > positions[ins["name"]] and acls != "below-min":
@@ -443,6 +516,43 @@ def gen_trade(rng, instrs, token, side=None, positions=None):
         mult = rng.choice((1.0, 1.01, 1.05, 1.5, 2, 10, Decimal("1.1"), 0.5, 0, -1))
         op["mult"] = mult
         mtag += "+cap" if (mult not in (0, -1)) else "+cap-degenerate"
+    if ins.get("rough"):
+        mtag += "~rough"
+    return op, f"{mtag}:{acls}"
+
+
+def gen_tie_trade(rng, ins, token, side, positions=None):
+    """an order capped with the multiple that puts one level of the book exactly on the cap"""
+    step = Decimal(1) if token == "ETH" else Decimal("0.1")
+    m, tie_price, _ = ins["tie"][side]
+    levels = ins["asks"] if side == "buy" else ins["bids"]
+    strictly = [l for l in levels if (l[0] < tie_price if side == "buy" else l[0] > tie_price)]
+    at_tie = [l for l in levels if l[0] == tie_price]
+    inner = sum((level_dec(l[1]) for l in strictly), Decimal(0))
+    tie_sz = sum((level_dec(l[1]) for l in at_tie), Decimal(0))
+    r = rng.random()
+    if r < 0.55:
+        amount, acls = inner + max(step, (tie_sz * Decimal(rng.randint(1, 100)) / 100).quantize(step)), "into-tie-level"
+    elif r < 0.7:
+        amount, acls = inner, "strictly-better-exact"
+    elif r < 0.8 and inner > step:
+        amount, acls = (inner * Decimal(rng.randint(10, 99)) / 100).quantize(step), "inside-strictly-better"
+    elif r < 0.9:
+        amount, acls = inner + tie_sz + step, "beyond-tie-level"
+    else:
+        amount, acls = inner + tie_sz, "through-tie-level"
+    if amount < step:
+        amount = step
+    op = {"type": side, "name": ins["name"], "amount": amount, "mult": tie_mult_arg(rng, m)}
+    mtag = "market+cap-tie"
+    if ins.get("rough"):
+        mtag = "market~rough+cap-tie"
+    if rng.random() < 0.2:
+        op["priceTok"], mtag = tie_price, "limit-at-tie+cap-tie"
+        op["amount"] = max(step, (tie_sz * Decimal(rng.randint(1, 100)) / 100).quantize(step))
+    elif rng.random() < 0.1:
+        op["mult"] = tie_mult_arg(rng, rng.choice(TIE_MULTS))      # some other multiple: no tie, or a tie with a different level
+        mtag = "market+cap-other"
     return op, f"{mtag}:{acls}"
 
 
